@@ -36,7 +36,7 @@ impl From<std::io::Error> for DecodeError { #[verifier::external_body] fn from(e
                          C("u8arg", "old(input)@.len() >= 1 ==> r is Ok && r->Ok_0 == old(input)@[0] && final(input)@ == old(input)@.skip(1)", "C12"),
                          C("u8short", "old(input)@.len() < 1 ==> r is Err", "C12")])],
            injects=[Inject("entry", "proof { broadcast use axiom_vec_u8_ext, axiom_vec_of, axiom_u256_ext, axiom_u256_of, axiom_be_inv, axiom_be, lemma_skip_skip, lemma_skip_take, lemma_skip_index; }"),
-                    Inject(("after_let", "integ"), """proof { let b0 = old(input)@; let n = nonzero_len as nat; let p = b0.subrange(2, (2 + n) as int); let s = zeros((32 - n) as nat) + p;
+                    Inject(("after_let", "integ"), """proof { let b0 = old(input)@; let n = b0[1] as nat; let p = b0.subrange(2, (2 + n) as int); let s = zeros((32 - n) as nat) + p;
                         assert(b0.skip(1).skip(1) =~= b0.skip(2)); assert(b0.skip(2).take(n as int) =~= p); assert(b0.skip(2).skip(n as int) =~= b0.skip((2 + n) as int));
                         assert(buf@.reverse() =~= s); assert(s.len() == 32); lemma_lead0_zeros((32 - n) as nat, p);
                         assert(be_bytes(integ@) == s); assert(lead0(p) == 0 <==> (n == 0 || p[0] != 0)); assert(n > 0 ==> p[0] == b0[2]); }""")],
